@@ -388,7 +388,7 @@ theorem reachableE_noExcl (h : List Bytes → UInt64) (env : Env) (p : Proj) (hr
   | parsed pa specs pa' s hm =>
     apply NoExcl_of_empty
     intro pos
-    rw [parseParts_subs specs pa newProjection pa' s hm pos, newProjection_subs]
+    rw [parseParts_subs specs pa newProjection pa' s (parse_ok _ _ _ _ hm) pos, newProjection_subs]
   | parsedWithUnit pa specs pa' s hm =>
     apply NoExcl_of_empty
     intro pos
@@ -398,7 +398,7 @@ theorem reachableE_noExcl (h : List Bytes → UInt64) (env : Env) (p : Proj) (hr
       simp only [Prod.mk.injEq, Except.ok.injEq] at hm
       obtain ⟨_, rfl⟩ := hm
       simp only [Proj.addRootField, groupSubs_append_leaf]
-      rw [parseParts_subs specs pa newProjection p1 s1 heq pos, newProjection_subs]
+      rw [parseParts_subs specs pa newProjection p1 s1 (parse_ok _ _ _ _ heq) pos, newProjection_subs]
     · rename_i hne
       cases hp : pa.parse specs with
       | mk p1 e =>
@@ -509,31 +509,24 @@ theorem parseParts_noErr (specs : List Spec) (pa : Parser) (s : Proj) (pa' : Par
       · exact ih _ _ hm x hx
     | error e => simp [hh] at hm
 
-theorem execSpecs_noErr (specs : List Spec) (h : ∀ sp ∈ specs, isErr sp = false) : execSpecs specs = specs := by
-  induction specs with
-  | nil => rfl
-  | cons sp rest ih =>
-    unfold execSpecs
-    rw [h sp (by simp)]
-    simp [ih (fun x hx => h x (by simp [hx]))]
-
 /-- The closures of a projection parsed (with or without `.unit`) from an expression. -/
 theorem parseExpr_parts (pa pa' : Parser) (e : Bool × List Spec) (s : Proj) (hm : parseExpr pa e = (pa', .ok s)) :
     (∀ x, x ∈ s.parts → ∃ sp ∈ e.2, NewPart sp x) ∧
     (∀ sp ∈ e.2, ∃ x ∈ s.parts, NewPart sp x) ∧
-    execSpecs e.2 = e.2 := by
+    effSpecs e.2 = e.2 := by
   unfold parseExpr at hm
   cases hb : e.1 with
   | false =>
-    simp only [hb, Bool.false_eq_true, if_false, Parser.parse] at hm
-    obtain ⟨i1, _, i3⟩ := parseParts_parts _ _ _ _ _ hm
-    refine ⟨fun x hx => ?_, i3, execSpecs_noErr _ (parseParts_noErr _ _ _ _ _ hm)⟩
+    simp only [hb, Bool.false_eq_true, if_false] at hm
+    have hm' := parse_ok _ _ _ _ hm
+    obtain ⟨i1, _, i3⟩ := parseParts_parts _ _ _ _ _ hm'
+    refine ⟨fun x hx => ?_, i3, effSpecs_noErr _ (parseParts_noErr _ _ _ _ _ hm')⟩
     rcases i1 x hx with a | a
     · simp [newProjection] at a
     · exact a
   | true =>
-    simp only [hb, if_true, Parser.parseWithUnit, Parser.parse] at hm
-    cases hh : parseParts pa newProjection e.2 with
+    simp only [hb, if_true, Parser.parseWithUnit] at hm
+    cases hh : pa.parse e.2 with
     | mk p1 r1 =>
       rw [hh] at hm
       cases r1 with
@@ -541,8 +534,9 @@ theorem parseExpr_parts (pa pa' : Parser) (e : Bool × List Spec) (s : Proj) (hm
       | ok s1 =>
         simp only [Prod.mk.injEq, Except.ok.injEq] at hm
         obtain ⟨_, rfl⟩ := hm
-        obtain ⟨i1, _, i3⟩ := parseParts_parts _ _ _ _ _ hh
-        refine ⟨fun x hx => ?_, i3, execSpecs_noErr _ (parseParts_noErr _ _ _ _ _ hh)⟩
+        have hh' := parse_ok _ _ _ _ hh
+        obtain ⟨i1, _, i3⟩ := parseParts_parts _ _ _ _ _ hh'
+        refine ⟨fun x hx => ?_, i3, effSpecs_noErr _ (parseParts_noErr _ _ _ _ _ hh')⟩
         simp only [Proj.addRootField] at hx
         rcases i1 x hx with a | a
         · simp [newProjection] at a
